@@ -144,6 +144,45 @@ func runC34(c *core.Ctx) {
 				}
 			}
 		})
+		// the clamp compares with the CURRENT epoch's start round: the start round it reads and the forced round
+		// it stores belong to one critical section (a start round read before the lock was released is stale when
+		// the forced round is stored: Update may have started an epoch in between)
+		{
+			reaches := func(from ssa.Instruction, to ssa.Instruction) bool {
+				esc, _ := core.PathQ{Fn: fn, From: from, Target: func(x ssa.Instruction, _ *ssa.BasicBlock) bool { return x == to }}.Escape()
+				return esc != nil
+			}
+			var loads, unlocks, stores []ssa.Instruction
+			core.Instrs(fn, func(in ssa.Instruction) {
+				switch x := in.(type) {
+				case *ssa.UnOp:
+					if fa, isFa := x.X.(*ssa.FieldAddr); isFa && x.Op == token.MUL && isRecvFieldAddr(fn, fa, "currEpochStartRound") {
+						loads = append(loads, in)
+					}
+				case *ssa.Call:
+					if d := core.CallDesc(&x.Call); d.Pkg == "sync" && (d.Name == "Unlock" || d.Name == "RUnlock") {
+						unlocks = append(unlocks, in)
+					}
+				case *ssa.Store:
+					if isRecvFieldAddr(fn, x.Addr, "nextEpochStartRound") {
+						stores = append(stores, in)
+					}
+				}
+			})
+			stale := ""
+			for _, l := range loads {
+				for _, u := range unlocks {
+					for _, st := range stores {
+						if reaches(l, u) && reaches(u, st) {
+							stale = fmt.Sprintf("currEpochStartRound read at %s, lock released at %s, forced round stored at %s", c.P.Pos(l.Pos()), c.P.Pos(u.Pos()), c.P.Pos(st.Pos()))
+						}
+					}
+				}
+			}
+			c.Check(stale == "" && len(loads) > 0 && len(stores) > 0, "C34/forced-start-clamped", "trigger.ForceEpochStart/one-critical-section", fn.Pos(),
+				"the start round the clamp reads and the forced round it stores are not separated by a release of the lock",
+				"the forced round is clamped against a start round read before the lock was released ("+stale+"): an epoch started in between makes the stored round earlier than the new epoch's start + minRoundsBetweenEpochs")
+		}
 		c.Check(ok, "C34/forced-start-clamped", "trigger.ForceEpochStart", fn.Pos(), "a too-early forced round is replaced by currEpochStartRound+minRoundsBetweenEpochs",
 			"no branch `nextEpochStartRound < currEpochStartRound+minRoundsBetweenEpochs` that clamps the forced round to that sum: an epoch can be forced to start before the minimum number of rounds")
 		// whatever value is stored as the forced round, every way out of the function passes the clamp
